@@ -34,7 +34,7 @@ theorem step_main_stable {c : Cfg} {s s' : St} {e : Ev} (hs : step c s e = some 
                · rename_i h; exact absurd h.1 hm
                · cases hs
   | «begin» i => simp only [step] at hs; split at hs <;> cases hs; rfl
-  | abort i => simp only [step] at hs; split at hs <;> cases hs; rfl
+  | abort i t => simp only [step] at hs; split at hs <;> cases hs; rfl
   | drain =>
     simp only [step] at hs
     by_cases hmm : s.main ≠ .running
